@@ -22,6 +22,7 @@ struct SimRun
   int ret;
   uint32_t top;   // highest page address the simulator allocated
   std::string dump;
+  std::string pre;
   std::vector<std::pair<std::string, uint32_t> > regs;
   std::vector<std::pair<uint32_t, uint8_t> > diff;
 };
@@ -39,7 +40,23 @@ static void prepare(Memory *m, const Case &c, bool fill, uint32_t span)
   }
 }
 
-static SimRun one_run(int cpu, const Case &c)
+static void set_state(Simulate *sim, const Case &c)
+{
+  for (const std::string &kv : split(opt_get(c.opts, "regs"), ';'))
+  {
+    size_t p = kv.find(':');
+    if (p == std::string::npos) { continue; }
+    std::string n = kv.substr(0, p);
+    sim->set_reg(n.c_str(), (uint32_t)strtoul(kv.substr(p + 1).c_str(), NULL, 0));
+  }
+  std::string pc = opt_get(c.opts, "pc");
+  if (!pc.empty()) { sim->set_pc((uint32_t)strtoul(pc.c_str(), NULL, 0)); }
+}
+
+// with_hist: another instruction (opts hist=<hex bytes>, placed at the same pc) is executed first in the same simulator
+// object; then memory is put back, the simulator is reset and the registers are set again, so the step that is
+// observed starts from the same prepared state as a fresh object's.  r.pre is the register dump before that step.
+static SimRun one_run(int cpu, const Case &c, bool with_hist = false)
 {
   SimRun r;
   bool fill = opt_get(c.opts, "bg", "1") == "1";
@@ -55,17 +72,28 @@ static SimRun one_run(int cpu, const Case &c)
   sim->enable_step_mode();
   sim->set_delay(0);
   sim->set_show(false);
-  std::vector<std::string> names;
-  for (const std::string &kv : split(opt_get(c.opts, "regs"), ';'))
+  std::string hist = opt_get(c.opts, "hist");
+  if (with_hist && !hist.empty())
   {
-    size_t p = kv.find(':');
-    if (p == std::string::npos) { continue; }
-    std::string n = kv.substr(0, p);
-    sim->set_reg(n.c_str(), (uint32_t)strtoul(kv.substr(p + 1).c_str(), NULL, 0));
-    names.push_back(n);
+    set_state(sim, c);
+    std::vector<uint8_t> hb = unhex(hist);
+    uint32_t at = (uint32_t)strtoul(opt_get(c.opts, "pc", "0").c_str(), NULL, 0);
+    for (size_t i = 0; i < hb.size(); i++) { m->write8(at + i, hb[i]); }
+    capture_begin();
+    sim->run(-1, 1);
+    capture_end(100);
+    // back to the prepared state
+    prepare(m, c, fill, span);
+    for (uint32_t a = span; a < span + 16; a++) { if (m->read8(a) != ref->read8(a)) { m->write8(a, ref->read8(a)); } }
+    sim->reset();
+    sim->enable_step_mode();
+    sim->set_delay(0);
+    sim->set_show(false);
   }
-  std::string pc = opt_get(c.opts, "pc");
-  if (!pc.empty()) { sim->set_pc((uint32_t)strtoul(pc.c_str(), NULL, 0)); }
+  set_state(sim, c);
+  capture_begin();
+  sim->dump_registers();
+  r.pre = capture_end(3000);
 
   capture_begin();
   r.ret = sim->run(-1, 1);
@@ -103,7 +131,7 @@ static void print_run(FILE *out, const char *key, const SimRun &r)
   }
   fprintf(out, "},\"diff\":[");
   for (size_t i = 0; i < r.diff.size(); i++) { fprintf(out, "%s[%u,%u]", i ? "," : "", r.diff[i].first, r.diff[i].second); }
-  fprintf(out, "],\"dump\":\"%s\"}", json_escape(r.dump).c_str());
+  fprintf(out, "],\"dump\":\"%s\",\"pre\":\"%s\"}", json_escape(r.dump).c_str(), json_escape(r.pre).c_str());
 }
 
 static void sim_case(const Case &c, FILE *out)
@@ -113,7 +141,7 @@ static void sim_case(const Case &c, FILE *out)
   for (int n = 0; cpu_list[n].name != NULL; n++) { if (name == cpu_list[n].name) { cpu = n; } }
   fprintf(out, "{\"case\":\"%s\",", c.id.c_str());
   if (cpu < 0 || cpu_list[cpu].simulate_init == NULL) { fprintf(out, "\"nosim\":1}\n"); return; }
-  SimRun a = one_run(cpu, c);
+  SimRun a = one_run(cpu, c, true);
   print_run(out, "a", a);
   if (opt_get(c.opts, "rep", "1") == "1")
   {
